@@ -145,6 +145,15 @@ pub fn gen(rng: &mut Rng, _index: u64) -> String {
             format!("C03.orienti {} {} {} {} {} {}", v[0], v[1], v[2], v[3], v[4], v[5])
         }
         4 | 5 => {
+            if rng.chance(1, 10) {
+                // exactly collinear points on / beyond a segment whose coordinates are so small (or so different in
+                // magnitude) that products of differences underflow: 2^-600 … 2^-540
+                let s = 2f64.powi(-(rng.range(540, 600) as i32));
+                let (dx, dy) = (rng.range(-3, 3) as f64, rng.range(-3, 3) as f64);
+                let at = |t: i64| Coord { x: dx * t as f64 * s, y: dy * t as f64 * s };
+                let (a, b, p) = (at(rng.range(-2, 2)), at(rng.range(-2, 2)), at(rng.range(-4, 4)));
+                return format!("C03.seg {} {} {}", proto::coord(a), proto::coord(b), proto::coord(p));
+            }
             let (a, p, b) = near_collinear(rng);
             format!("C03.seg {} {} {}", proto::coord(a), proto::coord(b), proto::coord(p))
         }
